@@ -13,7 +13,7 @@ import logging
 import os
 import re
 from pathlib import Path
-from typing import Collection, Generator, Optional, cast
+from typing import Callable, Collection, Generator, Optional, cast
 
 from .types import StrPath
 from .vcs import VCSStrategy
@@ -57,6 +57,19 @@ _IGNORE_SPDX_PATTERNS = [
 _IGNORE_FILE_PATTERNS.extend(_IGNORE_SPDX_PATTERNS)
 
 
+def _stat_test(test: Callable[[], bool]) -> bool:
+    """Run a :class:`Path` test such as ``path.is_file``. If the path cannot
+    even be inspected (for instance because its directory may be listed but not
+    searched), the answer is :const:`False`: the path is then neither skipped
+    as a symlink nor filtered by name, and reading it is reported as an error
+    where that happens.
+    """
+    try:
+        return test()
+    except OSError:
+        return False
+
+
 def is_path_ignored(
     path: Path,
     subset_files: Optional[Collection[StrPath]] = None,
@@ -71,11 +84,11 @@ def is_path_ignored(
     parent_parts = path.parent.parts
     parent_dir = parent_parts[-1] if len(parent_parts) > 0 else ""
 
-    if path.is_symlink():
+    if _stat_test(path.is_symlink):
         _LOGGER.debug("skipping symlink '%s'", path)
         return True
 
-    if path.is_file():
+    if _stat_test(path.is_file):
         if subset_files is not None and path.resolve() not in subset_files:
             return True
         for pattern in _IGNORE_FILE_PATTERNS:
@@ -90,7 +103,7 @@ def is_path_ignored(
                 _LOGGER.debug("skipping 0-sized file '%s'", path)
                 return True
 
-    elif path.is_dir():
+    elif _stat_test(path.is_dir):
         if subset_files is not None and not any(
             Path(file_).is_relative_to(path.resolve()) for file_ in subset_files
         ):
